@@ -297,7 +297,6 @@ func (p *Proxy) Serve(l net.Listener) error {
 			return err
 		}
 		delay = 0
-		log.Debug(context.TODO(), "accepted connection", "address", conn.RemoteAddr().String())
 
 		go p.handleLoop(conn)
 	}
@@ -318,6 +317,11 @@ func (p *Proxy) handleLoop(conn net.Conn) {
 	}()
 	defer p.connsWg.Add(-1)
 	defer conn.Close()
+
+	// RemoteAddr may wait for the peer (a PROXY protocol listener reads the header first),
+	// so it is called here and not in the accept loop, where it would delay every other client.
+	log.Debug(context.TODO(), "accepted connection", "address", conn.RemoteAddr().String())
+
 	if p.closing() {
 		return
 	}
